@@ -15,7 +15,7 @@ ASSUMPTIONS = [
     "rainfall of a day is taken from the harness's own copy of the weather table by date, not from the model's matrix",
     "applied irrigation = reported IrrDay x AppEff/100 for strategies 1,2,3,5 (0 for rainfed and net irrigation)",
     "generator keeps the effective curve number <= 100 (the property's stated domain)",
-    "'the day bunds are removed' is read as: the bund height in force today (0 without bunds) is below the water ponded at the start of the day -- this includes bunds replaced by LOWER ones when the season / fallow management takes over; infiltration may then be negative by at most the water above the new height",
+    "'the day bunds are removed' is read as: the bund height in force today (0 without bunds) is below the water ponded at the start of the day -- this includes bunds replaced by LOWER ones when the season / fallow management takes over; infiltration may then be negative by at most the water above the new height. It requires CONFIGURED bunds in force the day before that were higher than today's, so it is never permitted on the first day of a run",
     "tolerance 1e-9 relative to max(1, rain + irrigation)",
 ]
 BUDGET = {"quick": 480, "thorough": 6000}
